@@ -62,7 +62,7 @@ func init() {
 			}
 			var out []byte
 			if cb(k, "ofile") {
-				path := c.writeTemp(fmt.Sprintf("o%p.mid", &k), "")
+				path := c.writeTemp(fmt.Sprintf("o%d.mid", nextID()), "")
 				r := c.crd(append(args, "-o", path), d.YAML())
 				if r.Exit == 0 && !r.TimedOut && !r.Panic {
 					out, _ = os.ReadFile(path)
